@@ -495,6 +495,10 @@ func ruleInvalidate(c *Ctx) {
 				bad = "loadAccess is reached with the old verdict still cached (it would be reused without a new access request): " + tr.FmtPath(path)
 				break
 			}
+			if fi := indexKind(path, "flags"); fi < 0 || fi > li {
+				bad = "the deferred-reaccess flag is not cleared before the access request: a trigger arriving while this check is pending is lost when the flag is cleared later: " + tr.FmtPath(path)
+				break
+			}
 			qi := indexKind(path, "queue(2)")
 			if qi < 0 || qi > li {
 				bad = "access request issued before the event gate is closed (queueReasonReaccess): " + tr.FmtPath(path)
